@@ -36,84 +36,84 @@ func init() {
 
 // confirmed binding table: production signature -> bindings (as extracted by altBindings)
 var grammarBindings = map[string]string{
-	"field_name: IDENT":                 "$$=$1",
-	"field_name: keyword":               "$$=$1",
-	"keyword: ANY":                      "$$=\"any\"",
-	"keyword: IMPORT":                   "$$=\"import\"",
-	"keyword: MESSAGE":                  "$$=\"message\"",
-	"keyword: OPTIONS":                  "$$=\"options\"",
-	"keyword: STRUCT":                   "$$=\"struct\"",
-	"keyword: SERVICE":                  "$$=\"service\"",
-	"keyword: SUBSERVICE":               "$$=\"subservice\"",
-	"file: imports options definitions": "Definitions<-$3; Imports<-$1; Options<-$2",
-	"import: STRING":                    "ID<-trimString($1)",
-	"import: IDENT STRING":              "Alias<-$1; ID<-trimString($2)",
-	"import_list: ":                     "$$=nil",
-	"import_list: import_list import":   "$$=append($$,$2)",
-	"imports: ":                         "$$=nil",
-	"imports: IMPORT '(' import_list ')'":   "$$=append($$,$3...)",
-	"options: ":                             "$$=nil",
-	"options: OPTIONS '(' option_list ')'":  "$$=append($$,$3...)",
-	"option_list: ":                         "$$=nil",
-	"option_list: option_list option":       "$$=append($$,$2)",
-	"option: IDENT '=' STRING":              "Name<-$1; Value<-trimString($3)",
-	"type: base_type":                       "$$=$1",
-	"type: '[' ']' base_type":               "Element<-$3; Kind<-syntax.KindList",
-	"base_type: IDENT":                      "Kind<-syntax.GetKind($1); Name<-$1",
-	"base_type: IDENT '.' IDENT":            "Import<-$1; Kind<-syntax.KindReference; Name<-$3",
-	"base_type: ANY":                        "Kind<-syntax.KindAny; Name<-\"any\"",
-	"base_type: MESSAGE":                    "Kind<-syntax.KindAnyMessage; Name<-\"message\"",
-	"definition: enum":                      "",
-	"definition: message":                   "",
-	"definition: struct":                    "",
-	"definition: service":                   "",
-	"definition: subservice":                "",
-	"definitions: ":                         "$$=nil",
-	"definitions: definitions definition":   "$$=append($$,$2)",
-	"enum: ENUM IDENT '{' enum_values '}'":   "Name<-$2; Type<-syntax.DefinitionEnum; Values<-$4",
-	"enum_value: field_name '=' INTEGER ';'": "Name<-$1; Value<-$3",
-	"enum_values: ":                          "$$=nil",
-	"enum_values: enum_values enum_value":    "$$=append($$,$2)",
-	"message: MESSAGE IDENT '{' fields semi_opt '}'": "Fields<-$4; Name<-$2; Type<-syntax.DefinitionMessage",
-	"field: field_name type INTEGER":                 "Name<-$1; Tag<-$3; Type<-$2",
-	"fields: ":                                       "$$=nil",
-	"fields: field":                                  "$$=[]*syntax.Field{$1}",
-	"fields: fields ';' field":                       "$$=append($$,$3)",
-	"struct: STRUCT IDENT '{' struct_fields '}'":     "Fields<-$4; Name<-$2; Type<-syntax.DefinitionStruct",
-	"struct_field: field_name type ';'":              "Name<-$1; Type<-$2",
-	"struct_fields: ":                                "$$=nil",
-	"struct_fields: struct_fields struct_field":      "$$=append($$,$2)",
-	"service: SERVICE IDENT '{' methods '}'":         "Methods<-$4; Name<-$2; Type<-syntax.DefinitionService",
-	"subservice: SUBSERVICE IDENT '{' methods '}'":   "Methods<-$4; Name<-$2; Sub<-true; Type<-syntax.DefinitionService",
-	"methods: ":                                      "$$=nil",
-	"methods: methods method":                        "$$=append($1,$2)",
-	"method: field_name method_input ';'":                                "Input<-$2; Name<-$1",
-	"method: field_name method_input method_oneway ';'":                  "Input<-$2; Name<-$1; Oneway<-true",
-	"method: field_name method_input method_output ';'":                  "Input<-$2; Name<-$1; Output<-$3",
-	"method: field_name method_input method_channel ';'":                 "Channel<-$3; Input<-$2; Name<-$1",
-	"method: field_name method_input method_channel method_output ';'":   "Channel<-$3; Input<-$2; Name<-$1; Output<-$4",
-	"method_input: '(' base_type ')'":                                    "$$=$2",
-	"method_input: '(' method_field_list ')'":                            "$$=$2",
-	"method_oneway: ONEWAY":                                              "$$=true",
-	"method_output: base_type":                                           "$$=$1",
-	"method_output: '(' method_field_list ')'":                           "$$=$2",
-	"method_channel: '(' method_channel_in ')'":                          "In<-$2",
-	"method_channel: '(' method_channel_out ')'":                         "Out<-$2",
-	"method_channel: '(' method_channel_in ',' method_channel_out ')'":   "In<-$2; Out<-$4",
-	"method_channel: '(' method_channel_out ',' method_channel_in ')'":   "error",
-	"method_channel_in: '<' '-' type":                                    "$$=$3",
-	"method_channel_in: type '<' '-'":                                    "error",
-	"method_channel_out: type '-' '>'":                                   "$$=$1",
-	"method_channel_out: '-' '>' type":                                   "error",
-	"method_field_list: method_fields comma_opt":                         "$$=$1",
-	"method_fields: ":                                                    "$$=nil",
-	"method_fields: method_field":                                        "$$=[]*syntax.Field{$1}",
-	"method_fields: method_fields ',' method_field":                      "$$=append($1,$3)",
-	"method_field: field_name type INTEGER":                              "Name<-$1; Tag<-$3; Type<-$2",
-	"comma_opt: ":                                                        "",
-	"comma_opt: ','":                                                     "",
-	"semi_opt: ":                                                         "",
-	"semi_opt: ';'":                                                      "",
+	"field_name: IDENT":                                  "$$=$1",
+	"field_name: keyword":                                "$$=$1",
+	"keyword: ANY":                                       "$$=\"any\"",
+	"keyword: IMPORT":                                    "$$=\"import\"",
+	"keyword: MESSAGE":                                   "$$=\"message\"",
+	"keyword: OPTIONS":                                   "$$=\"options\"",
+	"keyword: STRUCT":                                    "$$=\"struct\"",
+	"keyword: SERVICE":                                   "$$=\"service\"",
+	"keyword: SUBSERVICE":                                "$$=\"subservice\"",
+	"file: imports options definitions":                  "Definitions<-$3; Imports<-$1; Options<-$2",
+	"import: STRING":                                     "ID<-trimString($1)",
+	"import: IDENT STRING":                               "Alias<-$1; ID<-trimString($2)",
+	"import_list: ":                                      "$$=nil",
+	"import_list: import_list import":                    "$$=append($$,$2)",
+	"imports: ":                                          "$$=nil",
+	"imports: IMPORT '(' import_list ')'":                "$$=append($$,$3...)",
+	"options: ":                                          "$$=nil",
+	"options: OPTIONS '(' option_list ')'":               "$$=append($$,$3...)",
+	"option_list: ":                                      "$$=nil",
+	"option_list: option_list option":                    "$$=append($$,$2)",
+	"option: IDENT '=' STRING":                           "Name<-$1; Value<-trimString($3)",
+	"type: base_type":                                    "$$=$1",
+	"type: '[' ']' base_type":                            "Element<-$3; Kind<-syntax.KindList",
+	"base_type: IDENT":                                   "Kind<-syntax.GetKind($1); Name<-$1",
+	"base_type: IDENT '.' IDENT":                         "Import<-$1; Kind<-syntax.KindReference; Name<-$3",
+	"base_type: ANY":                                     "Kind<-syntax.KindAny; Name<-\"any\"",
+	"base_type: MESSAGE":                                 "Kind<-syntax.KindAnyMessage; Name<-\"message\"",
+	"definition: enum":                                   "",
+	"definition: message":                                "",
+	"definition: struct":                                 "",
+	"definition: service":                                "",
+	"definition: subservice":                             "",
+	"definitions: ":                                      "$$=nil",
+	"definitions: definitions definition":                "$$=append($$,$2)",
+	"enum: ENUM IDENT '{' enum_values '}'":               "Name<-$2; Type<-syntax.DefinitionEnum; Values<-$4",
+	"enum_value: field_name '=' INTEGER ';'":             "Name<-$1; Value<-$3",
+	"enum_values: ":                                      "$$=nil",
+	"enum_values: enum_values enum_value":                "$$=append($$,$2)",
+	"message: MESSAGE IDENT '{' fields semi_opt '}'":     "Fields<-$4; Name<-$2; Type<-syntax.DefinitionMessage",
+	"field: field_name type INTEGER":                     "Name<-$1; Tag<-$3; Type<-$2",
+	"fields: ":                                           "$$=nil",
+	"fields: field":                                      "$$=[]*syntax.Field{$1}",
+	"fields: fields ';' field":                           "$$=append($$,$3)",
+	"struct: STRUCT IDENT '{' struct_fields '}'":         "Fields<-$4; Name<-$2; Type<-syntax.DefinitionStruct",
+	"struct_field: field_name type ';'":                  "Name<-$1; Type<-$2",
+	"struct_fields: ":                                    "$$=nil",
+	"struct_fields: struct_fields struct_field":          "$$=append($$,$2)",
+	"service: SERVICE IDENT '{' methods '}'":             "Methods<-$4; Name<-$2; Type<-syntax.DefinitionService",
+	"subservice: SUBSERVICE IDENT '{' methods '}'":       "Methods<-$4; Name<-$2; Sub<-true; Type<-syntax.DefinitionService",
+	"methods: ":                                          "$$=nil",
+	"methods: methods method":                            "$$=append($1,$2)",
+	"method: field_name method_input ';'":                "Input<-$2; Name<-$1",
+	"method: field_name method_input method_oneway ';'":  "Input<-$2; Name<-$1; Oneway<-true",
+	"method: field_name method_input method_output ';'":  "Input<-$2; Name<-$1; Output<-$3",
+	"method: field_name method_input method_channel ';'": "Channel<-$3; Input<-$2; Name<-$1",
+	"method: field_name method_input method_channel method_output ';'": "Channel<-$3; Input<-$2; Name<-$1; Output<-$4",
+	"method_input: '(' base_type ')'":                                  "$$=$2",
+	"method_input: '(' method_field_list ')'":                          "$$=$2",
+	"method_oneway: ONEWAY":                                            "$$=true",
+	"method_output: base_type":                                         "$$=$1",
+	"method_output: '(' method_field_list ')'":                         "$$=$2",
+	"method_channel: '(' method_channel_in ')'":                        "In<-$2",
+	"method_channel: '(' method_channel_out ')'":                       "Out<-$2",
+	"method_channel: '(' method_channel_in ',' method_channel_out ')'": "In<-$2; Out<-$4",
+	"method_channel: '(' method_channel_out ',' method_channel_in ')'": "error",
+	"method_channel_in: '<' '-' type":                                  "$$=$3",
+	"method_channel_in: type '<' '-'":                                  "error",
+	"method_channel_out: type '-' '>'":                                 "$$=$1",
+	"method_channel_out: '-' '>' type":                                 "error",
+	"method_field_list: method_fields comma_opt":                       "$$=$1",
+	"method_fields: ":                                                  "$$=nil",
+	"method_fields: method_field":                                      "$$=[]*syntax.Field{$1}",
+	"method_fields: method_fields ',' method_field":                    "$$=append($1,$3)",
+	"method_field: field_name type INTEGER":                            "Name<-$1; Tag<-$3; Type<-$2",
+	"comma_opt: ":                                                      "",
+	"comma_opt: ','":                                                   "",
+	"semi_opt: ":                                                       "",
+	"semi_opt: ';'":                                                    "",
 }
 
 func bindingsOf(a yAlt) string {
@@ -340,109 +340,109 @@ func runR15_3(c *Ctx, r *R) {
 			key := fmt.Sprintf("%s/return#%d", fnKey(f), n)
 			var judge func(fn *ssa.Function, v ssa.Value, depth int) (okv bool, why string, privateBad bool)
 			judge = func(fn *ssa.Function, v ssa.Value, depth int) (okv bool, why string, privateBad bool) {
-			switch x := v.(type) {
-			case *ssa.Const:
-				if k, ok := constInt(x); ok && k >= 0 {
-					okv, why = true, "constant token"
-				}
-			case *ssa.Call:
-				if o := calleeObj(x); o != nil && strings.HasPrefix(o.Name(), "yyLexError") {
-					okv, why = true, "error recorded"
-				} else if h := x.Call.StaticCallee(); h != nil && h.Blocks != nil && h.Pkg == fn.Pkg && depth < 2 {
-					// a helper of the lexer (lexIdent): every value it returns is judged the same way
-					okv, why = true, "token computed by "+h.Name()
-					any := false
-					for _, hr := range returnsOf(h) {
-						if len(hr.Results) != 1 {
-							okv = false
-							continue
-						}
-						any = true
-						o2, _, p2 := judge(h, hr.Results[0], depth+1)
-						if !o2 {
-							okv = false
-						}
-						if p2 {
-							privateBad = true
-						}
+				switch x := v.(type) {
+				case *ssa.Const:
+					if k, ok := constInt(x); ok && k >= 0 {
+						okv, why = true, "constant token"
 					}
-					if !any {
-						okv = false
-					}
-				}
-			case *ssa.Extract, *ssa.Lookup:
-				// keyword token from the keyword map (values checked by R15.4)
-				if isIntegerType(x.Type()) {
-					okv, why = true, "keyword token"
-				}
-			case *ssa.UnOp:
-				// lval.yys: last store in the block
-				if fa, ok := x.X.(*ssa.FieldAddr); ok && fieldOf(fa).Name() == "yys" {
-					// the stores to lval.yys that reach this load (backward search over the CFG)
-					isYys := func(ins ssa.Instruction) (ssa.Value, bool) {
-						if st, ok := ins.(*ssa.Store); ok {
-							if fa2, ok := st.Addr.(*ssa.FieldAddr); ok && fieldOf(fa2).Name() == "yys" && fa2.X == fa.X {
-								return st.Val, true
+				case *ssa.Call:
+					if o := calleeObj(x); o != nil && strings.HasPrefix(o.Name(), "yyLexError") {
+						okv, why = true, "error recorded"
+					} else if h := x.Call.StaticCallee(); h != nil && h.Blocks != nil && h.Pkg == fn.Pkg && depth < 2 {
+						// a helper of the lexer (lexIdent): every value it returns is judged the same way
+						okv, why = true, "token computed by "+h.Name()
+						any := false
+						for _, hr := range returnsOf(h) {
+							if len(hr.Results) != 1 {
+								okv = false
+								continue
 							}
-						}
-						return nil, false
-					}
-					var reaching []ssa.Value
-					complete := true
-					visited := map[*ssa.BasicBlock]bool{}
-					var back func(b *ssa.BasicBlock, upto int)
-					back = func(b *ssa.BasicBlock, upto int) {
-						for k := upto - 1; k >= 0; k-- {
-							if v, ok := isYys(b.Instrs[k]); ok {
-								reaching = append(reaching, v)
-								return
+							any = true
+							o2, _, p2 := judge(h, hr.Results[0], depth+1)
+							if !o2 {
+								okv = false
 							}
-						}
-						if len(b.Preds) == 0 {
-							complete = false
-						}
-						for _, p := range b.Preds {
-							if !visited[p] {
-								visited[p] = true
-								back(p, len(p.Instrs))
-							}
-						}
-					}
-					back(x.Block(), instrIndex(x))
-					okv = complete && len(reaching) > 0
-					why = "declared token constant / keyword token / literal rune"
-					for _, last := range reaching {
-						good := false
-						switch lv := last.(type) {
-						case *ssa.Const:
-							if k, ok := constInt(lv); ok && k >= 0 {
-								good = true
-							}
-						case *ssa.Extract, *ssa.Lookup:
-							good = true // keyword token from the keyword map (values checked by R15.4)
-						case *ssa.Convert:
-							// int(token) in the default arm: non-negative because every negative class has its own arm
-							good = true
-							for _, k := range []int64{-1, -2, -3, -4, -5, -6, -7, -8} {
-								if !labels[k] {
-									good = false
-								}
-							}
-							// ... and below the range goyacc numbers the grammar's named tokens from (yyPrivate,
-							// U+E000): a private-use rune in the source would otherwise be taken for IDENT, INTEGER,
-							// STRING or a keyword, carrying the previous token's value (D19)
-							if !runeBelowPrivate(c, fn, lv) {
-								good = false
+							if p2 {
 								privateBad = true
 							}
 						}
-						if !good {
+						if !any {
 							okv = false
 						}
 					}
+				case *ssa.Extract, *ssa.Lookup:
+					// keyword token from the keyword map (values checked by R15.4)
+					if isIntegerType(x.Type()) {
+						okv, why = true, "keyword token"
+					}
+				case *ssa.UnOp:
+					// lval.yys: last store in the block
+					if fa, ok := x.X.(*ssa.FieldAddr); ok && fieldOf(fa).Name() == "yys" {
+						// the stores to lval.yys that reach this load (backward search over the CFG)
+						isYys := func(ins ssa.Instruction) (ssa.Value, bool) {
+							if st, ok := ins.(*ssa.Store); ok {
+								if fa2, ok := st.Addr.(*ssa.FieldAddr); ok && fieldOf(fa2).Name() == "yys" && fa2.X == fa.X {
+									return st.Val, true
+								}
+							}
+							return nil, false
+						}
+						var reaching []ssa.Value
+						complete := true
+						visited := map[*ssa.BasicBlock]bool{}
+						var back func(b *ssa.BasicBlock, upto int)
+						back = func(b *ssa.BasicBlock, upto int) {
+							for k := upto - 1; k >= 0; k-- {
+								if v, ok := isYys(b.Instrs[k]); ok {
+									reaching = append(reaching, v)
+									return
+								}
+							}
+							if len(b.Preds) == 0 {
+								complete = false
+							}
+							for _, p := range b.Preds {
+								if !visited[p] {
+									visited[p] = true
+									back(p, len(p.Instrs))
+								}
+							}
+						}
+						back(x.Block(), instrIndex(x))
+						okv = complete && len(reaching) > 0
+						why = "declared token constant / keyword token / literal rune"
+						for _, last := range reaching {
+							good := false
+							switch lv := last.(type) {
+							case *ssa.Const:
+								if k, ok := constInt(lv); ok && k >= 0 {
+									good = true
+								}
+							case *ssa.Extract, *ssa.Lookup:
+								good = true // keyword token from the keyword map (values checked by R15.4)
+							case *ssa.Convert:
+								// int(token) in the default arm: non-negative because every negative class has its own arm
+								good = true
+								for _, k := range []int64{-1, -2, -3, -4, -5, -6, -7, -8} {
+									if !labels[k] {
+										good = false
+									}
+								}
+								// ... and below the range goyacc numbers the grammar's named tokens from (yyPrivate,
+								// U+E000): a private-use rune in the source would otherwise be taken for IDENT, INTEGER,
+								// STRING or a keyword, carrying the previous token's value (D19)
+								if !runeBelowPrivate(c, fn, lv) {
+									good = false
+									privateBad = true
+								}
+							}
+							if !good {
+								okv = false
+							}
+						}
+					}
 				}
-			}
-			return
+				return
 			}
 			okv, why, privateBad := judge(f, ret.Results[0], 0)
 			switch {
